@@ -348,9 +348,13 @@ def main(argv):
             env['TSAN_OPTIONS'] = 'exitcode=66 halt_on_error=0 report_signal_unsafe=0'
             runs = [(2, 200, 300), (3, 150, 300), (3, 40, 2000)] if tier == 'quick' else [(2, 2000, 3000), (3, 1500, 3000), (3, 400, 20000), (3, 3000, 100), (2, 5000, 5000)]
 
+            # ... and, much faster, without the sanitizer (a fourth element marks these runs): narrow race windows need many rounds
+            runs += [(3, 15000, 20000, 'plain'), (2, 20000, 30000, 'plain'), (3, 5000, 60000, 'plain'), (3, 15000, 20000, 'plain')] if tier == 'quick' else \
+                    [(3, 40000, 60000, 'plain'), (2, 60000, 90000, 'plain'), (3, 15000, 200000, 'plain')]
+
             def stress(r):
                 try:
-                    p = subprocess.run([os.path.join(d, 'drv_tsan')], input=f'T {r[0]} {r[1]} {r[2]}\n'.encode(), stdout=subprocess.PIPE, stderr=subprocess.PIPE, timeout=600, env=env)
+                    p = subprocess.run([os.path.join(d, 'drv_tsan' if len(r) == 3 else 'drv')], input=f'T {r[0]} {r[1]} {r[2]}\n'.encode(), stdout=subprocess.PIPE, stderr=subprocess.PIPE, timeout=600, env=env)
                     return r, p.returncode, p.stdout.decode(errors='replace'), p.stderr.decode(errors='replace')
                 except subprocess.TimeoutExpired:
                     return r, -9, '', 'TIMEOUT'
